@@ -19,7 +19,7 @@ def run(ctx):
                         oracle_fns=[oracles.c06, oracles.c18],
                         n_random_progs=(3, 30),
                         scen_kw={"crash": 0.1, "faults": 1.0, "pct": 0.5},
-                        post=lambda c, ex: fault_enumeration(c, NAMES, [oracles.c06, oracles.c18, oracles.c03]),
+                        post=lambda c, ex: fault_enumeration(c, NAMES[:6] if c.quick else NAMES, [oracles.c06, oracles.c18, oracles.c03]),
                         model_kw={"max_api_fails": 1},
                         extra_rule="Fault enumeration: each curated program x each checkpoint API call index x each error class. Oracle: after the "
                                    "failing call no further API call, no unrecorded outcome reported, never SUCCEEDED/PENDING, raise vs FAILED per the "
